@@ -197,6 +197,17 @@ theorem stored_frames_exact_encapsulated_through_readers_partial (c : CodecImpl)
   rw [pm_encapsulated_readers_eq c conv x.ts e f b hb henc index]
   exact readStoredFrameEncapsulated_build c hc conv x e h hts f hf
 
+/-- **The native read path goes through `decode_frame`** (closing the step from cells to numbers): what a reader of the image
+classes (`readFrame`: the call regenerated in T13g, dispatch T13c) makes of the raw bytes of a frame of a native uint8 / uint16
+map is the little-endian value of every cell of the plane -- the `cellValue`s that `read_applies_attached_mapping_partial` feeds to
+the real-world value mapping -- for any frame index.  (Cells of `itemsize` bytes below 256: what numpy's `tobytes` yields.) -/
+theorem native_frame_through_decode_frame (c : CodecImpl) (conv : List Int → List Int) (x : PMInput) (o : PMObject)
+    (h : build x = .ok o) (hts : x.ts ∈ nativeSyntaxes) (hel : o.element = "PixelData") (hw : CellsWF x)
+    (hbytes : ∀ i k j, ∀ b ∈ x.cell i k j, b < 256) (hsz : x.itemsize = 1 ∨ x.itemsize = 2)
+    (hshape : shapeInRange x.r x.c = true) (i j : Nat) (index : Int) :
+    readFrame c conv (o.module x.ts) (plane x i j).flatten index = .ok ((plane x i j).map cellValue) :=
+  native_frame_through_decode c conv x o h hts hel hw hbytes hsz hshape i j index
+
 /-- frame numbers beyond the image are refused (native) -/
 theorem stored_frame_out_of_range (x : PMInput) (o : PMObject) (h : build x = .ok o) (hts : x.ts ∈ nativeSyntaxes)
     (hel : o.element = "PixelData") (f : Nat) (hf : x.n * x.m ≤ f) : readStoredFrame o f = .error .index := by
@@ -579,5 +590,17 @@ example (e : PMEncapsulated) (h : buildEncapsulated tagCodec { exampleInput with
     readFrame tagCodec id (e.obj.module rle) [0x54, 10, 14] 2 = .ok [5, 7] :=
   stored_frames_exact_encapsulated_through_readers_partial tagCodec (tagCodec_lossless _) id { exampleInput with ts := rle } e h
     (Or.inl rfl) 2 (by decide) _ hb 2
+/-- non-vacuity of `native_frame_through_decode_frame`: the example map with every cell byte below 256; frame (plane 1, channel 0)
+through a reader that passes the frame's own index 2 -/
+def exampleInputBytes : PMInput := { exampleInput with cell := fun i k j => [((i * 2 + k) * 2 + j + 1) % 256, 0] }
+example (o : PMObject) (h : build exampleInputBytes = .ok o) (hel : o.element = "PixelData") :
+    readFrame noCodec id (o.module exampleInputBytes.ts) (plane exampleInputBytes 1 0).flatten 2 =
+      .ok ((plane exampleInputBytes 1 0).map cellValue) :=
+  native_frame_through_decode_frame noCodec id exampleInputBytes o h (by decide) hel (by intro i k j; rfl)
+    (by intro i k j b hb
+        simp only [exampleInputBytes, List.mem_cons, List.not_mem_nil, or_false] at hb
+        rcases hb with rfl | rfl <;> omega)
+    (Or.inr rfl) (by decide) 1 0 2
+example : (plane exampleInputBytes 1 0).flatten = [5, 0, 7, 0] ∧ (plane exampleInputBytes 1 0).map cellValue = [5, 7] := by decide
 
 end HdVerif.C19
